@@ -9,9 +9,10 @@ import pC12
 from common import Case
 
 TITLE = 'Board-settings files are read back as the boards that were written, in order'
-LEAN_TARGETS = ['BridgeVerif.Props.C17', 'BridgeVerif.Translated.JsonWriter', 'BridgeVerif.Translated.JsonParser', 'BridgeVerif.Translated.JsonRoundTrip', 'BridgeVerif.Lemmas.RegexPbn', 'BridgeVerif.Translated.PbnParserClosed', 'BridgeVerif.Translated.PbnParserWide', 'BridgeVerif.Translated.PbnSettings', 'BridgeVerif.Lemmas.RegexHands', 'BridgeVerif.Translated.HandsPbnClosed', 'BridgeVerif.Props.Regex']
-AUDIT_PROPS = ['C17', 'Translated.JsonWriter', 'Translated.JsonParser', 'Translated.JsonRoundTrip', 'Lemmas.RegexPbn', 'Translated.PbnParser', 'Translated.PbnParserClosed', 'Translated.PbnParserWide', 'Translated.PbnSettings', 'Lemmas.RegexHands', 'Translated.HandsPbn', 'Translated.HandsPbnClosed', 'Regex']
-REQUIRED = ['Translated.JsonRoundTrip.jr_settings_round_trip_translated',
+LEAN_TARGETS = ['BridgeVerif.Props.C17', 'BridgeVerif.Translated.JsonWriter', 'BridgeVerif.Translated.JsonParser', 'BridgeVerif.Translated.JsonRoundTrip', 'BridgeVerif.Lemmas.RegexPbn', 'BridgeVerif.Translated.PbnParserClosed', 'BridgeVerif.Translated.PbnParserWide', 'BridgeVerif.Translated.PbnSettings', 'BridgeVerif.Translated.PbnPct', 'BridgeVerif.Lemmas.RegexHands', 'BridgeVerif.Translated.HandsPbnClosed', 'BridgeVerif.Props.Regex']
+AUDIT_PROPS = ['C17', 'Translated.JsonWriter', 'Translated.JsonParser', 'Translated.JsonRoundTrip', 'Lemmas.RegexPbn', 'Translated.PbnParser', 'Translated.PbnParserClosed', 'Translated.PbnParserWide', 'Translated.PbnSettings', 'Translated.PbnPct', 'Lemmas.RegexHands', 'Translated.HandsPbn', 'Translated.HandsPbnClosed', 'Regex']
+REQUIRED = ['Translated.PbnPct.pctLineOk_ascii', 'Translated.PbnPct.pp_pbn_import_round_trip_translated_ascii',
+            'Translated.JsonRoundTrip.jr_settings_round_trip_translated',
             'Lemmas.RegexPbn.pbnRegexFacts', 'Translated.PbnParserClosed.pp_parse_all_closed', 'Translated.PbnParserWide.pp_parse_all_wide_closed', 'Translated.PbnSettings.pp_parse_board_settings_wide_closed', 'Translated.PbnSettings.pp_pbn_import_round_trip_translated', 'Translated.PbnSettings.pp_pbn_import_round_trip_translated_universal', 'Translated.PbnParser.pp_parse_all_translated', 'Regex.pbn_patterns_are_the_translated_constants',
             'Translated.JsonWriter.jw_settings_document_translated', 'Translated.JsonParser.jp_parse_board_settings_translated_same', 'Translated.JsonParser.jp_parse_board_settings_translated_partial',
             'settings_round_trip', 'settings_document_is_json', 'settings_validate', 'pbn_import_round_trip',
